@@ -3,8 +3,10 @@
 
    Implementation-shaped: one action per public call of the real code
      Export(v, og)   = PageLayout.to_pagexml_string / to_pagexml   (v = 1: PAGE 2019-07-15, v = 2: PAGE 2013-07-15)
-     Load(how, g)    = PageLayout().from_pagexml(_string)          (how = "into": parse only)
-                       PageLayout(file = ...)                      (how = "ctor": parse, then sort by reading order)
+     Load(how, g, pm) = PageLayout().from_pagexml(_string)         (how = "into": parse only)
+                        PageLayout(file = ...)                     (how = "ctor": parse, then sort by reading order)
+                       pm = order in which the TextRegion elements of the document reach the parser (identity, or
+                       the permutation applied by another tool between the two calls)
    over the behaviour  Build; Export v; Load; Export v'; Load; Export v'  of the property statement.
 
    Units.  A *page* (the live object) holds coordinates in quarters of a pixel, heights in 1/80
@@ -89,38 +91,52 @@ NoDoc == [ver |-> 0, pid |-> 0, size |-> <<0, 0>>, hasRO |-> FALSE, ro |-> <<>>,
 VARIABLES page,     \* the live PageLayout
           doc,      \* the document written last
           pre,      \* history: the page as it was before the last Export / the document's source
+          seen,     \* history: the document as the last Load saw it (doc with its regions possibly re-ordered)
           prevDoc,  \* history: the document written before the last one
           step,     \* 0 built, 1 exported, 2 loaded, 3 exported, 4 loaded, 5 exported
           how       \* variant of the last load
-vars == <<page, doc, pre, prevDoc, step, how>>
+vars == <<page, doc, pre, seen, prevDoc, step, how>>
 
 Init == /\ page \in Pages
-        /\ doc = NoDoc /\ prevDoc = NoDoc /\ pre = page /\ step = 0 /\ how = "none"
+        /\ doc = NoDoc /\ prevDoc = NoDoc /\ seen = NoDoc /\ pre = page /\ step = 0 /\ how = "none"
 
-Export(v, og) ==
+Sorted == IF page.hasRO THEN SortByRO(page.regions, page.ro) ELSE page.regions
+Export(v, og) ==                                  \* og[i][j]: tenths written for OffGrid heights of line j of the i-th region written
   /\ step \in {0, 2, 4}
   /\ (step = 4) => (v = doc.ver)                  \* the fixpoint clause compares two exports of one version
-  /\ LET sorted == IF page.hasRO THEN SortByRO(page.regions, page.ro) ELSE page.regions
+  /\ LET sorted == Sorted
      IN /\ page' = [page EXCEPT !.regions = sorted]               \* export sorts the page object in place
         /\ doc' = [ver |-> v, pid |-> page.pid, size |-> page.size, hasRO |-> page.hasRO, ro |-> page.ro,
                    regions |-> [i \in 1..Len(sorted) |-> ExpRegion(sorted[i], og[i])]]
   /\ pre' = page /\ prevDoc' = doc /\ step' = step + 1
-  /\ UNCHANGED how
+  /\ UNCHANGED <<how, seen>>
 
-Load(h, g) ==
+IsPermIdx(pm, n) == /\ Len(pm) = n /\ \A i \in 1..n : pm[i] \in 1..n
+                    /\ \A i, j \in 1..n : i # j => pm[i] # pm[j]
+Src(pm) == [i \in 1..Len(doc.regions) |-> doc.regions[pm[i]]]
+Load(h, g, pm) ==
   /\ step \in {1, 3}
-  /\ LET regs == [i \in 1..Len(doc.regions) |-> LoadRegion(doc.regions[i], g[i])]
-     IN page' = [pid |-> doc.pid, size |-> doc.size,
-                 hasRO |-> TRUE,                      \* get_reading_order returns {} when the element is absent
-                 ro |-> doc.ro,
-                 regions |-> IF h = "ctor" /\ Len(regs) > 0 THEN SortByRO(regs, doc.ro) ELSE regs]
+  /\ IsPermIdx(pm, Len(doc.regions))
+  /\ LET src == Src(pm)
+         regs == [i \in 1..Len(src) |-> LoadRegion(src[i], g[i])]
+     IN /\ page' = [pid |-> doc.pid, size |-> doc.size,
+                    hasRO |-> TRUE,                      \* get_reading_order returns {} when the element is absent
+                    ro |-> doc.ro,
+                    regions |-> IF h = "ctor" /\ Len(regs) > 0 THEN SortByRO(regs, doc.ro) ELSE regs]
+        /\ seen' = [doc EXCEPT !.regions = src]
   /\ how' = h /\ step' = step + 1
   /\ UNCHANGED <<doc, pre, prevDoc>>
 
+Ident(n) == [i \in 1..n |-> i]
+DesignPerms(n) == {Ident(n), [i \in 1..n |-> n + 1 - i], [i \in 1..n |-> (i % n) + 1]}
 \* design-level choice of the unconstrained values: one pair for every line of the page
 Shaped(regs, pair) == [i \in 1..Len(regs) |-> [j \in 1..Len(regs[i].lines) |-> pair]]
-Next == \/ \E v \in Vers, o \in OffTenths \X OffTenths : Export(v, Shaped(page.regions, o))
-        \/ \E h \in Hows, gp \in GuessVals \X GuessVals : Load(h, Shaped(doc.regions, gp))
+Next == \/ \E v \in Vers, o \in OffTenths \X OffTenths : Export(v, Shaped(Sorted, o))
+        \/ \E h \in Hows, gp \in GuessVals \X GuessVals :
+              \* re-ordering by another tool (identity / reversed / rotated) is explored before the first load by the
+              \* constructor only: that is where the order held is asserted (bounds the search)
+              \E pm \in (IF step = 1 /\ h = "ctor" THEN DesignPerms(Len(doc.regions)) ELSE {Ident(Len(doc.regions))}) :
+                 Load(h, Shaped(Src(pm), gp), pm)
 Spec == Init /\ [][Next]_vars
 
 \* ======================================== properties (C01) ==========================================
@@ -179,7 +195,7 @@ HeldOK(D, Q) ==
      /\ \A i, j \in 1..Len(b) : (i < j /\ Key(Q.ro, b[i]) = Key(Q.ro, b[j])) => Pos(a, b[i]) < Pos(a, b[j])
 
 InvWritten   == step \in {1, 3, 5} => WrittenOK(pre, doc)
-InvRoundTrip == step \in {2, 4} => RoundTripOK(pre, doc, page, how)
-InvHeld      == (step \in {2, 4} /\ how = "ctor") => HeldOK(doc, page)
+InvRoundTrip == step \in {2, 4} => RoundTripOK(pre, seen, page, how)
+InvHeld      == (step \in {2, 4} /\ how = "ctor") => HeldOK(seen, page)
 InvFixpoint  == step = 5 => doc = prevDoc
 =============================================================================
